@@ -30,6 +30,10 @@ type steer struct {
 	// RespType: nodes that report the stream type "response" in their ProcessorIO when they run on the
 	// response direction (as GenerateResponse and ReadCache do); the walk must not depend on it
 	RespType map[string]bool `json:"reports_response_type_on_response,omitempty"`
+	// Unwired: the answering node (Early) has NO connection on the response direction but does have a request
+	// connection for the condition it reports (the shape of a cache-read node wired on the request side only).
+	// Only "the rest of the request path is skipped" is judged for such a transaction.
+	Unwired bool `json:"answering_node_without_response_connection,omitempty"`
 }
 
 type ev struct {
@@ -189,8 +193,50 @@ func genSteer(r *sim.Rand, gc graphCase) steer {
 	}
 	if len(gc.Early) > 0 && r.Chance(1, 2) {
 		s.Early = sim.Pick(r, sim.SortedKeys(gc.Early))
+	} else if r.Chance(1, 4) {
+		// a node nobody wired for answering answers, and reports a condition that one of its request connections carries
+		type cand struct{ k, cond string }
+		var cs []cand
+		for _, fl := range gc.Flows {
+			for _, e := range fl.Req {
+				if e.To != "" && !gc.Early[e.From] {
+					cs = append(cs, cand{e.From, e.Cond})
+				}
+			}
+		}
+		if len(cs) > 0 {
+			c := cs[r.Intn(len(cs))]
+			s.Early, s.Unwired = c.k, true
+			s.Out[c.k] = c.cond
+		}
 	}
 	return s
+}
+
+// judgeUnwired: the answering node has no response connection. Whatever the engine makes of that (the flow
+// fails, the answer is delivered or not), no request-direction processor of that flow runs after the node.
+func judgeUnwired(s steer, trace []ev, rp replay, v *sim.Verdict) {
+	flow, at := "", -1
+	for i, e := range trace {
+		if e.Dir == "req" && e.Key == s.Early {
+			flow, at = e.Flow, i
+			break
+		}
+	}
+	if at < 0 {
+		v.Count("unwired_answering_node_not_reached", 1)
+		return
+	}
+	v.Count("transactions_answered_by_a_node_without_response_connection", 1)
+	var after []string
+	for _, e := range trace[at+1:] {
+		if e.Dir == "req" && e.Flow == flow {
+			after = append(after, e.Key)
+		}
+	}
+	if len(after) > 0 {
+		v.Violate("C04/ran-after-early-response/no-response-connection", fmt.Sprintf("flow %s kept executing %v on the request path after %s answered the request", flow, after, s.Early), rp)
+	}
 }
 
 func headersFor(s steer) map[string]string {
@@ -390,6 +436,10 @@ func runCase(idx int, args sim.Args, r *sim.Rand, gc graphCase, steers []steer, 
 		trace := drain()
 		rp.Trace = trace
 		rp.Phase = "request"
+		if s.Unwired {
+			judgeUnwired(s, trace, rp, v)
+			continue
+		}
 		if res.Err != nil {
 			v.Violate("C04/error/request", res.Err.Error(), rp)
 			continue
